@@ -623,7 +623,8 @@ class Interp:
             if h.type is None:
                 classes = (BaseException,)
             else:
-                t = self.eval(h.type, Ctx(), {'__module__': env.get('__module__')})
+                # the exception classes named by the handler (usually a global name; may be a class constant reached through self)
+                t = self.eval(h.type, ctx.fork() if not ctx.dead else Ctx(), dict(pre_env))
                 classes = tuple(t) if isinstance(t, tuple) else (t,)
             handlers.append((classes, h))
         results = []      # normal completions (of body+else, of handlers) to merge
